@@ -14,15 +14,30 @@ def SlotOK (cap : Nat) (p : Pool) : Prop :=
 def PhaseOK (p : Pool) : Prop :=
   ∀ (t : Nat) (tk : PTask), p.tasks[t]? = some tk → NYR tk.phase = true → tk.released = false
 
+/-- the three registries are sound (and, as long as nothing was `lost`, complete) with respect to the tasks -/
+structure RegOK (p : Pool) : Prop where
+  nd : (p.running ++ p.cancelledR ++ p.ended).Nodup
+  run : ∀ t ∈ p.running, ∃ tk : PTask, p.tasks[t]? = some tk ∧ tk.released = false
+  can : ∀ t ∈ p.cancelledR, ∃ tk : PTask, p.tasks[t]? = some tk ∧ tk.released = false ∧
+          tk.phase ≠ .created ∧ tk.phase ≠ .inWorker
+  fin : ∀ t ∈ p.ended, ∃ tk : PTask, p.tasks[t]? = some tk ∧ tk.released = true
+  cpl : p.lost = false → ∀ (t : Nat) (tk : PTask), p.tasks[t]? = some tk → tk.released = false →
+          t ∈ p.running ∨ t ∈ p.cancelledR
+
 structure Good (cap : Nat) (p : Pool) : Prop where
   slot : SlotOK cap p
   phase : PhaseOK p
+  reg : RegOK p
 
 /-- `q` is `p` up to changes that neither move a slot nor put a task (back) into a slot-holding phase -/
 structure Tame (p q : Pool) : Prop where
   val : q.sem.value = p.sem.value
   grants : grantsL q.sem.waiters = grantsL p.sem.waiters
   len : q.tasks.length = p.tasks.length
+  run : q.running = p.running
+  can : q.cancelledR = p.cancelledR
+  fin : q.ended = p.ended
+  lost : q.lost = p.lost
   pt : ∀ (t : Nat) (tk' : PTask), q.tasks[t]? = some tk' →
         ∃ tk : PTask, p.tasks[t]? = some tk ∧ tk'.released = tk.released ∧ (tk'.phase = tk.phase ∨ NYR tk'.phase = false)
 
@@ -83,10 +98,11 @@ theorem getElem?_modify_some {α} (l : List α) (t i : Nat) (f : α → α) (y :
 /-! ### Tame: algebra -/
 
 theorem Tame.refl (p : Pool) : Tame p p :=
-  ⟨rfl, rfl, rfl, fun _ tk' h => ⟨tk', h, rfl, Or.inl rfl⟩⟩
+  ⟨rfl, rfl, rfl, rfl, rfl, rfl, rfl, fun _ tk' h => ⟨tk', h, rfl, Or.inl rfl⟩⟩
 
 theorem Tame.trans {p q r : Pool} (h1 : Tame p q) (h2 : Tame q r) : Tame p r := by
-  refine ⟨h2.val.trans h1.val, h2.grants.trans h1.grants, h2.len.trans h1.len, ?_⟩
+  refine ⟨h2.val.trans h1.val, h2.grants.trans h1.grants, h2.len.trans h1.len, h2.run.trans h1.run,
+    h2.can.trans h1.can, h2.fin.trans h1.fin, h2.lost.trans h1.lost, ?_⟩
   intro t tk'' h
   obtain ⟨tk', hq, hr', hp'⟩ := h2.pt t tk'' h
   obtain ⟨tk, hp, hr, hph⟩ := h1.pt t tk' hq
@@ -112,8 +128,46 @@ theorem Tame.phase {p q : Pool} (h : Tame p q) (hp : PhaseOK p) : PhaseOK q := b
   · rw [b]; exact hp t tk a (by rw [← e]; exact hn)
   · rw [n] at hn; cases hn
 
+/-- the task at index `t` in `q` and the task it came from in `p` -/
+theorem Tame.back {p q : Pool} (h : Tame p q) (t : Nat) (tk : PTask) (hp : p.tasks[t]? = some tk) :
+    ∃ tk', q.tasks[t]? = some tk' ∧ tk'.released = tk.released ∧ (tk'.phase = tk.phase ∨ NYR tk'.phase = false) := by
+  have hlt : t < q.tasks.length := by
+    rw [h.len]; exact (List.getElem?_eq_some_iff.mp hp).1
+  refine ⟨q.tasks[t], by simp [hlt], ?_⟩
+  obtain ⟨tk0, a, b, c⟩ := h.pt t q.tasks[t] (by simp [hlt])
+  rw [hp] at a; cases a; exact ⟨b, c⟩
+
+theorem Tame.reg {p q : Pool} (h : Tame p q) (hr : RegOK p) : RegOK q := by
+  refine ⟨by rw [h.run, h.can, h.fin]; exact hr.nd, ?_, ?_, ?_, ?_⟩
+  · intro t ht
+    rw [h.run] at ht
+    obtain ⟨tk, a, b⟩ := hr.run t ht
+    obtain ⟨tk', a', b', _⟩ := h.back t tk a
+    exact ⟨tk', a', b'.trans b⟩
+  · intro t ht
+    rw [h.can] at ht
+    obtain ⟨tk, a, b, c, d⟩ := hr.can t ht
+    obtain ⟨tk', a', b', c'⟩ := h.back t tk a
+    refine ⟨tk', a', b'.trans b, ?_, ?_⟩
+    · rcases c' with e | n
+      · rw [e]; exact c
+      · intro e; rw [e] at n; cases n
+    · rcases c' with e | n
+      · rw [e]; exact d
+      · intro e; rw [e] at n; cases n
+  · intro t ht
+    rw [h.fin] at ht
+    obtain ⟨tk, a, b⟩ := hr.fin t ht
+    obtain ⟨tk', a', b', _⟩ := h.back t tk a
+    exact ⟨tk', a', b'.trans b⟩
+  · intro hl t tk' ht hrel
+    rw [h.lost] at hl
+    obtain ⟨tk, a, b, _⟩ := h.pt t tk' ht
+    rw [h.run, h.can]
+    exact hr.cpl hl t tk a (b ▸ hrel)
+
 theorem Tame.good {cap : Nat} {p q : Pool} (h : Tame p q) (hg : Good cap p) : Good cap q :=
-  ⟨h.slot hg.slot, h.phase hg.phase⟩
+  ⟨h.slot hg.slot, h.phase hg.phase, h.reg hg.reg⟩
 
 /-- released flag of a task is preserved along a tame change -/
 theorem Tame.released {p q : Pool} (h : Tame p q) (t : Nat) (tk : PTask) (hp : p.tasks[t]? = some tk) :
@@ -124,8 +178,10 @@ theorem Tame.released {p q : Pool} (h : Tame p q) (t : Nat) (tk : PTask) (hp : p
   obtain ⟨tk0, a, b, _⟩ := h.pt t q.tasks[t] (by simp [hlt])
   rw [hp] at a; cases a; exact b
 
-theorem tame_of_eq (p q : Pool) (hs : q.sem = p.sem) (ht : q.tasks = p.tasks) : Tame p q := by
-  refine ⟨by rw [hs], by rw [hs], by rw [ht], ?_⟩
+theorem tame_of_eq (p q : Pool) (hs : q.sem = p.sem) (ht : q.tasks = p.tasks)
+    (h1 : q.running = p.running := by rfl) (h2 : q.cancelledR = p.cancelledR := by rfl)
+    (h3 : q.ended = p.ended := by rfl) (h4 : q.lost = p.lost := by rfl) : Tame p q := by
+  refine ⟨by rw [hs], by rw [hs], by rw [ht], h1, h2, h3, h4, ?_⟩
   intro t tk' h; rw [ht] at h; exact ⟨tk', h, rfl, Or.inl rfl⟩
 
 namespace Pool
@@ -151,7 +207,7 @@ namespace Pool
 theorem tame_modTask (p : Pool) (t : Nat) (f : PTask → PTask)
     (hr : ∀ x, (f x).released = x.released) (hp : ∀ x, (f x).phase = x.phase ∨ NYR (f x).phase = false) :
     Tame p (p.modTask t f) := by
-  refine ⟨rfl, rfl, by simp [modTask], ?_⟩
+  refine ⟨rfl, rfl, by simp [modTask], rfl, rfl, rfl, rfl, ?_⟩
   intro i tk' h
   obtain ⟨x, hx, rfl⟩ := getElem?_modify_some p.tasks t i f tk' h
   refine ⟨x, hx, ?_, ?_⟩ <;> split <;> simp_all
@@ -221,7 +277,7 @@ theorem grantsL_cancelWaiterL (m : Nat) (ws : List Waiter) : grantsL (cancelWait
 
 theorem tame_cancelPoolWaiter (p : Pool) (m : Nat) :
     Tame p ({ p with sem := { p.sem with waiters := cancelWaiterL m p.sem.waiters } } : Pool) :=
-  ⟨rfl, grantsL_cancelWaiterL m _, rfl, fun _ tk' h => ⟨tk', h, rfl, Or.inl rfl⟩⟩
+  ⟨rfl, grantsL_cancelWaiterL m _, rfl, rfl, rfl, rfl, rfl, fun _ tk' h => ⟨tk', h, rfl, Or.inl rfl⟩⟩
 
 theorem tame_metaCancel (p : Pool) (m) : Tame p (p.metaCancel m) := by
   unfold metaCancel
